@@ -149,7 +149,9 @@ func (c *Ctx) exec(st *State, s ast.Stmt, label string) outcome {
 		return outcome{normal: st}
 	case *ast.GoStmt:
 		unsupp("go statement at %s", c.posStr(x.Pos()))
-	case *ast.SelectStmt, *ast.SendStmt:
+	case *ast.SelectStmt:
+		return c.execSelect(st, x, label)
+	case *ast.SendStmt:
 		unsupp("channel operation at %s", c.posStr(x.Pos()))
 	case *ast.TypeSwitchStmt:
 		unsupp("type switch at %s", c.posStr(x.Pos()))
@@ -553,6 +555,59 @@ func (c *Ctx) execSwitch(st *State, x *ast.SwitchStmt, label string) outcome {
 		}
 	}
 	return result
+}
+
+// execSelect: channels are outside the model. A select is a nondeterministic choice among its clauses (any communication
+// may be the one that is ready; a default clause may be taken too); only clauses of the forms "<-ch" and "default" are
+// accepted, so no modelled value depends on what was communicated. Blocking forever is not a behaviour that matters for
+// the partial-correctness claims made here.
+func (c *Ctx) execSelect(st *State, x *ast.SelectStmt, label string) outcome {
+	c.trusted["select: channels are not modelled; every clause is considered possible (nondeterministic choice)"] = true
+	result := outcome{}
+	for _, cl := range x.Body.List {
+		cc := cl.(*ast.CommClause)
+		if cc.Comm != nil {
+			es, ok := cc.Comm.(*ast.ExprStmt)
+			ue, isRecv := ast.Expr(nil), false
+			if ok {
+				if u, isU := ast.Unparen(es.X).(*ast.UnaryExpr); isU && u.Op == token.ARROW {
+					ue, isRecv = u.X, true
+				}
+			}
+			if !isRecv || !selectorChain(ue) && !isCallChain(ue) {
+				unsupp("select clause other than a plain receive at %s", c.posStr(cc.Pos()))
+			}
+		}
+		o := c.execBlock(st.clone(), cc.Body)
+		result = c.mergeOutcomes(result, o)
+	}
+	for _, k := range []string{"", label} {
+		if b, ok := result.breaks[k]; ok && (k == "" || label != "") {
+			if result.normal.dead() {
+				result.normal = b
+			} else {
+				result.normal = c.merge(result.normal, b)
+			}
+			delete(result.breaks, k)
+		}
+	}
+	return result
+}
+
+// isCallChain: x.f().g() ... - a receive from a channel returned by a (logging-free, effect-free) accessor such as
+// closer.CloseNotify(); the call is not evaluated.
+func isCallChain(e ast.Expr) bool {
+	switch x := e.(type) {
+	case *ast.CallExpr:
+		return len(x.Args) == 0 && isCallChain(x.Fun)
+	case *ast.SelectorExpr:
+		return isCallChain(x.X)
+	case *ast.Ident:
+		return true
+	case *ast.ParenExpr:
+		return isCallChain(x.X)
+	}
+	return false
 }
 
 func (c *Ctx) execReturn(st *State, x *ast.ReturnStmt) {
